@@ -56,6 +56,8 @@ type LoopSpec struct {
 }
 
 type CallSpec struct {
+	At       *SExpr // ghost index of this callback call (overrides the protocol's `at`)
+	Shift    *SExpr // forwarding call: caller index = callee index + shift
 	IterInv  []*Clause
 	IterStop []*Clause
 	Uses     []*SExpr
@@ -102,6 +104,8 @@ type FuncContract struct {
 	Only     []string // when set: only obligations whose name (after #) has one of these prefixes are generated; the rest is reported as not covered
 	Modifies []string // heap fields ("Type.field") that may change on pre-existing objects
 	Dead     []string // cover obligations expected to be unreachable under the precondition (suffix match)
+	Skips    []string // "file.go:LINE": an unsupported construct on that line drops the path (reported as not verified)
+	SkipWhy  []string
 	Free     []string // parameters exempt from the exact-mode domain assumption (may hold +-Inf)
 }
 
@@ -116,7 +120,7 @@ var directiveKW = map[string]bool{
 	"spec": true, "lemma": true, "axiom": true, "func": true, "requires": true, "ensures": true,
 	"loop": true, "call": true, "assigns": true, "pure": true, "trusted": true, "arith": true,
 	"decreases": true, "induction": true, "use": true, "props": true, "ret": true, "entry": true,
-	"unfold": true, "iter": true, "ghost": true, "opaque": true, "nosafety": true, "have": true, "free": true, "dead": true, "modifies": true, "reveal": true, "proto": true, "only": true, "pureas": true, "extern": true,
+	"unfold": true, "iter": true, "ghost": true, "opaque": true, "nosafety": true, "have": true, "free": true, "dead": true, "modifies": true, "reveal": true, "proto": true, "only": true, "pureas": true, "extern": true, "skip": true,
 }
 
 // collectAnnotations returns the //@ lines of a file, with positions.
@@ -354,6 +358,14 @@ func (cs *Contracts) parseFile(pkg string, lines []string, where string) {
 			curL.Haves = append(curL.Haves, parseClause(it.text, w))
 		case "pureas":
 			curF.PureAs = strings.TrimSpace(it.text)
+		case "skip":
+			f := strings.SplitN(strings.TrimSpace(it.text), " ", 2)
+			curF.Skips = append(curF.Skips, f[0])
+			why := ""
+			if len(f) > 1 {
+				why = f[1]
+			}
+			curF.SkipWhy = append(curF.SkipWhy, why)
 		case "only":
 			curF.Only = append(curF.Only, strings.FieldsFunc(it.text, func(r rune) bool { return r == ',' || r == ' ' })...)
 		case "proto":
@@ -491,6 +503,10 @@ func (cs *Contracts) parseFile(pkg string, lines []string, where string) {
 				curF.Calls[n] = c
 			}
 			switch f[1] {
+			case "at":
+				c.At = parseExprText(f[2], w)
+			case "shift":
+				c.Shift = parseExprText(f[2], w)
 			case "iterinv":
 				c.IterInv = append(c.IterInv, parseClause(f[2], w))
 			case "iterstop":
